@@ -389,7 +389,18 @@ def main():
         if "--tier" in sys.argv:
             tier = sys.argv[sys.argv.index("--tier") + 1]
         seed = int(os.environ.get("VERIF_SEED", "1"))
-        return check(pid, tier, seed)
+        try:
+            return check(pid, tier, seed)
+        except Exception:
+            # the check itself failed while judging this tree (an output it cannot interpret, a build step that behaves
+            # unexpectedly): the property is not shown to hold, and no failing input was produced
+            import traceback
+            tb = traceback.format_exc()
+            sys.stderr.write(tb)
+            path = write_replay(pid, {"property": pid, "kind": "obligation-broken", "has_input": False,
+                                      "why": "the check could not be completed on this tree: " + tb.strip().splitlines()[-1][:300], "traceback": tb[-4000:]})
+            print("VIOLATION property=%s replay=%s no-failing-input-found" % (pid, path))
+            return 1
     if cmd == "replay":
         return props.replay(sys.argv[2])
     if cmd == "corr":
